@@ -91,30 +91,58 @@ def parse_matcher(mt):
     }
 
 
-STMT_PATTERNS = [
-    (re.compile(r"^let prev = FAKE_COUNTER\.fetch_add\(1, Ordering::SeqCst\);"), "Stmt.fetchAddPrev"),
-    (re.compile(r'^if prev >= \$expected \{ panic!\("Fake function defined at \{\}:\{\}:\{\} called more times than expected", file!\(\), line!\(\), column!\(\)\); \}'), "Stmt.ifPrevGeExpectedPanicOver"),
-    (re.compile(r"^\{ \$\(\$assign\)\* \}"), "Stmt.assign"),
-    (re.compile(r"^\$ret_val(?= |$)"), "Stmt.retVal"),
-    (re.compile(r"^\(\)(?= |$)"), "Stmt.retUnit"),
-]
+OVER_MSG = r'panic!\("Fake function defined at \{\}:\{\}:\{\} called more times than expected", file!\(\), line!\(\), column!\(\)\);?'
+UNEXP_MSG = r'panic!\("Fake function defined at \{\}:\{\}:\{\} called with unexpected arguments", file!\(\), line!\(\), column!\(\)\);?'
+ORDERING = r"(?:std::sync::atomic::|atomic::)?Ordering::SeqCst"
 
 
-def parse_block(text):
-    """text: body of the then-branch; returns list of Stmt"""
+def parse_block(text, counter):
+    """text: body of the then-branch; `counter`: name of the call-site static (or None).
+    Returns list of Stmt.  Local names are free; the operations and their order are not."""
     t = norm(text)
     out = []
+    prev = None
     while t:
-        for rx, name in STMT_PATTERNS:
-            m = rx.match(t)
+        m = re.match(r"^let (\w+) = (\w+)\.fetch_add\(1, " + ORDERING + r"\);", t)
+        if m and counter is not None and m.group(2) == counter:
+            prev = m.group(1)
+            out.append("Stmt.fetchAddPrev")
+            t = t[m.end():].strip()
+            continue
+        if prev is not None:
+            m = re.match(r"^if (?:" + re.escape(prev) + r" >= \$expected|\$expected <= " + re.escape(prev) + r") \{ " + OVER_MSG + r" \}", t)
             if m:
-                out.append(name)
+                out.append("Stmt.ifPrevGeExpectedPanicOver")
                 t = t[m.end():].strip()
-                break
-        else:
-            out.append("Stmt.unknown")
-            break
+                continue
+        m = re.match(r"^\{ \$\(\$assign\)\* \}", t)
+        if m:
+            out.append("Stmt.assign")
+            t = t[m.end():].strip()
+            continue
+        m = re.match(r"^\$ret_val(?= |$)", t)
+        if m:
+            out.append("Stmt.retVal")
+            t = t[m.end():].strip()
+            continue
+        m = re.match(r"^\(\)(?= |$)", t)
+        if m:
+            out.append("Stmt.retUnit")
+            t = t[m.end():].strip()
+            continue
+        out.append("Stmt.unknown")
+        break
     return out
+
+
+def resolve(expr, lets, depth=0):
+    """replace let-bound names by their (resolved) right-hand sides"""
+    if depth > 6:
+        return expr
+    def rep(m):
+        n = m.group(0)
+        return "(" + resolve(lets[n], lets, depth + 1) + ")" if n in lets else n
+    return re.sub(r"(?<![\w\.\$:])[A-Za-z_]\w*\b(?!\s*[:(!])", rep, expr)
 
 
 def parse_trans(tr):
@@ -125,18 +153,28 @@ def parse_trans(tr):
     t = t[1:-1]
     res = {}
     nt = norm(t)
-    res["counter_static"] = "static FAKE_COUNTER: AtomicUsize = AtomicUsize::new(0);" in nt and \
-        "use std::sync::atomic::{AtomicUsize, Ordering};" in nt
-    if "let verifier = CallCountVerifier::WithCount { counter: &FAKE_COUNTER, expected: $expected };" in nt:
+    ms = re.search(r"\bstatic (\w+): AtomicUsize = AtomicUsize::new\(0\);", nt)
+    counter = ms.group(1) if ms else None
+    imports = ("use std::sync::atomic::{AtomicUsize, Ordering};" in nt) or \
+              ("use std::sync::atomic::AtomicUsize;" in nt and "use std::sync::atomic::Ordering;" in nt) or \
+              ("use std::sync::atomic::{Ordering, AtomicUsize};" in nt)
+    res["counter_static"] = counter is not None and imports
+    verifier_var = None
+    mv = re.search(r"\blet (\w+) = CallCountVerifier::WithCount \{ counter: &(\w+), expected: \$expected,? \};", nt)
+    md = re.search(r"\blet (\w+) = CallCountVerifier::Dummy;", nt)
+    if mv and counter is not None and mv.group(2) == counter:
         res["verifier"] = "VerifierK.withCount"
-    elif "let verifier = CallCountVerifier::Dummy;" in nt:
+        verifier_var = mv.group(1)
+    elif md and not mv:
         res["verifier"] = "VerifierK.dummy"
+        verifier_var = md.group(1)
     else:
         res["verifier"] = "VerifierK.unknown"
-    # fn fake
-    m = re.search(r'(?P<q>(?:unsafe\s+)?(?:extern\s+"(?:C|system)"\s+)?)fn\s+fake\s*\(\s*\$\(\s*\$arg_name\s*:\s*\$arg_ty\s*\)\s*,\s*\*\s*\)\s*->\s*(?P<ret>\$ret|\(\))\s*\{', t)
+    # the generated function
+    m = re.search(r'(?P<q>(?:unsafe\s+)?(?:extern\s+"(?:C|system)"\s+)?)fn\s+(?P<name>\w+)\s*\(\s*\$\(\s*\$arg_name\s*:\s*\$arg_ty\s*\)\s*,\s*\*\s*\)\s*->\s*(?P<ret>\$ret|\(\))\s*\{', t)
     if not m:
         return None
+    fname = m.group("name")
     res["fake_kind"] = kind_of(m.group("q"))
     res["fake_ret"] = ret_of(m.group("ret"))
     bi = t.find("{", m.end() - 1)
@@ -152,7 +190,7 @@ def parse_trans(tr):
         res["cond"] = "Cond.whenCond" if m2.group(1) == "$cond" else "Cond.constTrue"
         ti = fbody.find("{", m2.end() - 1)
         te = match_delim(fbody, ti)
-        res["then"] = parse_block(fbody[ti + 1:te])
+        res["then"] = parse_block(fbody[ti + 1:te], counter)
         rest = fbody[te + 1:].strip()
         m3 = re.match(r"else\s*\{", rest)
         if not m3:
@@ -165,22 +203,41 @@ def parse_trans(tr):
                 res["else"] = "ElseBr.unknown"
             elif eb in ("unreachable!()", "unreachable!();"):
                 res["else"] = "ElseBr.unreachable"
-            elif re.fullmatch(r'panic!\("Fake function defined at \{\}:\{\}:\{\} called with unexpected arguments", file!\(\), line!\(\), column!\(\)\);?', eb):
+            elif re.fullmatch(UNEXP_MSG, eb):
                 res["else"] = "ElseBr.panicUnexpected"
             else:
                 res["else"] = "ElseBr.unknown"
+    # tail: a typed coercion of the generated function, then (FuncPtr::new(ptr, type_name), verifier)
     na = norm(after)
-    m4 = re.match(r'^let f: (?P<q>(?:unsafe )?(?:extern "(?:C|system)" )?)fn\(\$\(\$arg_ty\),\*\) -> (?P<ret>\$ret|\(\)) = fake; '
-                  r'let raw_ptr = f as \*const \(\); '
-                  r'\(unsafe \{ FuncPtr::new\(raw_ptr, std::any::type_name_of_val\(&f\)\) \}, verifier\)$', na)
+    res["coerce_kind"] = "FnKind.unknown"
+    res["coerce_ret"] = "RetTy.unknown"
+    res["tail_ok"] = False
+    m4 = re.match(r'^let (?P<f>\w+): (?P<q>(?:unsafe )?(?:extern "(?:C|system)" )?)fn\(\$\(\$arg_ty\),\*\) -> (?P<ret>\$ret|\(\)) = ' + re.escape(fname) + r'; (?P<rest>.*)$', na)
     if m4:
-        res["coerce_kind"] = kind_of(m4.group("q"))
-        res["coerce_ret"] = ret_of(m4.group("ret"))
-        res["tail_ok"] = True
-    else:
-        res["coerce_kind"] = "FnKind.unknown"
-        res["coerce_ret"] = "RetTy.unknown"
-        res["tail_ok"] = False
+        fvar = m4.group("f")
+        rest = m4.group("rest")
+        lets = {}
+        while True:
+            ml = re.match(r"^let (\w+) = ", rest)
+            if not ml:
+                break
+            # right-hand side up to the `;` that is not inside braces/parens
+            depth, k = 0, ml.end()
+            while k < len(rest) and not (rest[k] == ";" and depth == 0):
+                if rest[k] in "({[":
+                    depth += 1
+                elif rest[k] in ")}]":
+                    depth -= 1
+                k += 1
+            lets[ml.group(1)] = rest[ml.end():k].strip()
+            rest = rest[k + 1:].strip()
+        # compare modulo parentheses (alias resolution wraps substituted expressions in them)
+        final = "".join(resolve(rest, lets).split()).replace("(", "").replace(")", "")
+        want = "unsafe{FuncPtr::new%sas*const,std::any::type_name_of_val&%s},%s" % (fvar, fvar, verifier_var)
+        if final == want:
+            res["coerce_kind"] = kind_of(m4.group("q"))
+            res["coerce_ret"] = ret_of(m4.group("ret"))
+            res["tail_ok"] = True
     return res
 
 
